@@ -18,7 +18,8 @@ RULE = (
     "thresholds (r = 1 +- 1e-8 +- tiny). non-trivial = at least one end gradient given; all seven "
     "analytic branches x both orderings are listed in the histogram. grid stratum: per-region "
     "psi_vals/dx/psixy_xlow of the shared gridlab corpus and nx -> 2nx derived descriptors "
-    "(equilibrium construction only)."
+    "(equilibrium construction only); connected-double-null guard: nearly connected double nulls around "
+    "the documented refusal threshold (second X-point vs first gridded SOL surface, inner and outer)."
 )
 
 _EQ = None
@@ -348,6 +349,66 @@ def nesting_pairs(run):
                     )
 
 
+def connected_dn_guard(run):
+    """A connected double null (nx_inter_sep=0) whose X-points differ slightly in psi must be refused
+    when the second X-point lies beyond the first gridded flux surface of the inner or the outer SOL
+    (documented ValueError); when it is accepted, that must not be the case. Equilibrium construction
+    only (cheap), parameters generated around the threshold."""
+    from hypothesis import strategies as st
+
+    @st.composite
+    def build(draw):
+        from .. import families
+
+        eq = {"topology": "cdn", "sign": draw(st.sampled_from([1.0, -1.0])), "nR": 65, "nZ": 65,
+              "delta": draw(st.sampled_from([2e-4, -2e-4, 5e-4, -5e-4, 1e-3, -1e-3, 2e-3]))}
+        crit = families.g_critical(eq)
+        po, xs = crit["o"][2], crit["x"]
+        p2 = (xs[1][2] - po) / (xs[0][2] - po)  # normalised psi of the second X-point (> 1)
+        nx_sol = draw(st.integers(1, 4))
+        # first SOL cell centre at about 1 + width/(2 nx_sol): widths generated around the threshold
+        # where that centre coincides with the second X-point, the inner SOL mostly the narrower one
+        w_in = 2 * nx_sol * (p2 - 1.0) * draw(st.sampled_from([0.4, 0.7, 0.9, 1.1, 1.4, 2.0, 3.0]))
+        w_out = w_in * draw(st.sampled_from([0.5, 1.0, 2.0, 4.0, 4.0]))
+        o = {"nx_core": 2, "nx_sol": nx_sol, "orthogonal": True, "psinorm_core": 0.9, "psinorm_pf": 0.95,
+             "psinorm_sol": round(1.0 + max(w_out, 0.004), 5), "psinorm_sol_inner": round(1.0 + max(w_in, 0.004), 5),
+             "psi_spacing_separatrix_multiplier": draw(st.sampled_from([1.0, 1.0, 0.5]))}
+        for k in ("ny_inner_lower_divertor", "ny_inner_upper_divertor", "ny_outer_lower_divertor", "ny_outer_upper_divertor", "ny_inner_sol", "ny_outer_sol"):
+            o[k] = 4
+        return {"family": "G", "entry": "api", "eq": eq, "options": o, "stop_after": "equilibrium"}
+
+    n = 48 if run.tier == "quick" else 600
+    descs = corpus.collect(build(), n, run.seed + 900, keyfn=lambda d: "%s/%s" % ("inner-narrower" if d["options"]["psinorm_sol_inner"] < d["options"]["psinorm_sol"] else "inner-wider", d["options"]["nx_sol"]), oversample=4)
+    for c in gridlab.run_cases(descs, timeout=300):
+        msg = str(c.status.get("exc_msg", ""))
+        if c.outcome == "raised":
+            kind = "refused-inner-sol" if "in the inner SOL" in msg else "refused-outer-sol" if "in the outer SOL" in msg else "raised-other:" + str(c.status.get("exc_type"))
+            run.bump("connected-dn-guard/" + kind)
+            run.count(c.desc, nontrivial=kind.startswith("refused"), key="cdg:" + gridlab.desc_id(c.desc))
+            continue
+        if c.outcome != "equilibrium":
+            run.bump("connected-dn-guard/" + c.outcome)
+            run.count(c.desc, nontrivial=False)
+            continue
+        run.bump("connected-dn-guard/accepted")
+        run.count(c.desc, nontrivial=True, key="cdg:" + gridlab.desc_id(c.desc))
+        ps = c.side["psi_sep"]
+        if len(ps) < 2:
+            continue
+        out = numpy.sign(ps[0] - c.side["psi_axis"])
+        for name in ("inner_core", "outer_core"):
+            reg = c.side["eq_regions"].get(name)
+            if reg is None or len(reg["psi_vals"]) < 2:
+                continue
+            first_centre = float(reg["psi_vals"][1][1])
+            if out * (first_centre - ps[1]) < 0:
+                run.failure(
+                    "C09/connected-double-null-accepted-with-second-xpoint-beyond-first-sol-surface/" + name,
+                    {"psi_sep": list(ps), "first_sol_cell_centre": first_centre, "region": name},
+                    {"desc": c.desc}, {},
+                )
+
+
 def run(run):
     q = run.tier == "quick"
     jobs = [("shard_unit", dict(seed=run.seed * 100 + i, n=150 if q else 3000)) for i in range(10)]
@@ -357,6 +418,7 @@ def run(run):
     merge_job_outputs(run, run_jobs([("vf.props.c09", fn, kw) for fn, kw in jobs], processes=14))
     gridcheck.run_corpus_property(run, "vf.props.c09", "check_grid", corpus.base_corpus(run.tier, run.seed))
     nesting_pairs(run)
+    connected_dn_guard(run)
     run.rule = RULE
     run.assumptions = [
         "end values within 1e-9 |upper-lower| (documented brentq rtol 1e-10); derivatives by one-sided "
